@@ -647,9 +647,9 @@ def observe(case):
 
 
 def model_request(case):
-    # nlargest/nsmallest are modelled by their meaning (sorted(...)[:n]); their exact pull pattern (one extra poll of an
-    # exhausted source when 0 < len < n, as heapq itself does) is not part of the model, so no token prediction for them
-    if case.get("family") != "tool" or case["tool"] in s1.NO_MODEL or case["tool"] in ("nlargest", "nsmallest"):
+    # (nlargest/nsmallest: the bounded-heap algorithm is modelled since Std/Select.lean, including the extra poll of an
+    # exhausted source when 0 < len < n, so their token sequence is predicted like everyone else's)
+    if case.get("family") != "tool" or case["tool"] in s1.NO_MODEL:
         return None
     return tools.model_request(case)
 
